@@ -929,6 +929,23 @@ def _k1(ctx: Context) -> None:
             ck.check("C09.K1", hdr in (("const", None), ("list", ()), ("tuple", ())), f"{s.func.name} ({m[1]}): no body, no entity headers",
                      f"{fk}:headers-without-body", f"{s.func.name}: sends headers {show(hdr, 120)} without a body", s.loc())
             continue
+        # Content-Length announces the BYTES that are sent: when the body handed to request() is `<text>.encode(..)` and the
+        # announced length is `len(<that text>)`, characters are counted - too small for every non-ASCII character
+        sb, sh_ = strip_sites(body), strip_sites(hdr)
+        if sh_[0] in ("list", "tuple") and sb != ("const", None):
+            for x in sh_[1]:
+                if x[0] == "tuple" and len(x[1]) == 2 and x[1][0] == ("const", "Content-Length"):
+                    ln_ = x[1][1]
+                    if not (ln_[0] == "call" and ln_[1] == ("glob", "len") and len(ln_[2]) == 1):
+                        continue
+                    text = ln_[2][0]
+                    # the measured value is the text of the body: body = text.encode(..)  or  text = body.decode(..)
+                    is_text_of_body = (sb[0] == "call" and sb[1][0] == "attr" and sb[1][2] == "encode" and sb[1][1] == text) or (
+                        text[0] == "call" and text[1][0] == "attr" and text[1][2] == "decode" and text[1][1] == sb)
+                    if is_text_of_body:
+                        ck.violated("C09.K1", f"{fk}:content-length-counts-characters",
+                                    f"{s.func.name}: Content-Length is len({show(text, 60)}) - the length of the TEXT - while the body sent is that text encoded: "
+                                    "for a body with a non-ASCII character the announced length is smaller than the bytes on the wire", s.loc())
         if not (body[0] == "param" and body[1] in wparams):
             ck.unknown("C09.K1", f"{s.func.name}: body is computed inside the wrapper ({show(body, 80)}); its flow is not followed", s.loc())
             continue
